@@ -12,6 +12,7 @@ reports its own property's violations.
 """
 import os
 import asyncio
+import contextvars
 import collections
 import datetime
 import decimal
@@ -881,11 +882,15 @@ def _execute(ctx):
                 ctx.stats["rejected_calls"] += 1
                 if not light:
                     after = await snapshot()
-                    if before != after and None not in (before[2], after[2]):
-                        diff = [k for k in range(3) if before[k] != after[k]]
+                    # (the set of open loans cannot be listed while a price its interest needs is missing: then only
+                    # balances and open orders are compared)
+                    cmp_ = (0, 1, 2) if None not in (before[2], after[2]) else (0, 1)
+                    if any(before[k] != after[k] for k in cmp_):
+                        diff = [k for k in cmp_ if before[k] != after[k]]
                         V("C07", "state-changed-by-rejected-call",
                           f"{name} raised {type(x).__name__}({x}) but state changed: balances {before[0]} -> {after[0]}; "
-                          f"open orders {len(before[1])} -> {len(after[1])}; open loans {len(before[2])} -> {len(after[2])}",
+                          f"open orders {len(before[1])} -> {len(after[1])}; open loans "
+                          f"{'?' if before[2] is None else len(before[2])} -> {'?' if after[2] is None else len(after[2])}",
                           shape=f"{name.split('(')[0]} raises {type(x).__name__}: {str(x)[:40]}; changed={diff}")
                 return False, x
 
@@ -1003,7 +1008,7 @@ def _execute(ctx):
                                          amt=amt, acc=acc, from_handler=from_handler, last=None, cancelled=False,
                                          closed_at_obs=None, nfills=0, ab=ab, ar=ar, open_before_bar=False,
                                          filled_before_bar=D(0), spent_before_bar={}, seqno=len(M["seq"]),
-                                         by_job=not from_handler, cancel_by_job=False)
+                                         by_job=not from_handler, cancel_by_job=False, job_S=JOB_S.get(), cancel_job_S=None)
                 M["seq"].append(r.id)
                 ctx.history.append(r.id)
                 if not light and R is not None:
@@ -1019,8 +1024,12 @@ def _execute(ctx):
                         ctx.probes["auto_borrow_loan"] += 1
                         await after_borrow(name, bal)
             else:
-                if not light and valid and R is not None and not ab and not borrowed_any:
+                # "without borrowing" = a request that does not borrow: debts the account already has do not matter, since
+                # reserving funds cannot change the margin level
+                if not light and valid and R is not None and not ab:
                     if all(av(bal, s) >= rq for s, rq in R.items()):
+                        if borrowed_any:
+                            ctx.probes["covered_request_judged_with_debts"] += 1
                         V("C06", "rejected-although-covered", f"{name} rejected ({r}) although available "
                                                               f"{ {s: str(av(bal, s)) for s in R} } covers the reservation {R}")
                     else:
@@ -1105,6 +1114,7 @@ def _execute(ctx):
                 if o is not None:
                     o["cancelled"] = True
                     o["cancel_by_job"] = not from_handler
+                    o["cancel_job_S"] = JOB_S.get()
                     if o["ar"] and info_before.amount_filled:
                         mark_autorepay(o)
                         await check_largest_first(o)
@@ -1451,8 +1461,13 @@ def _execute(ctx):
             # the bars of its own timestamp, like the job: orders placed while handling it are judged like a job's
             rec = M["orders"].get(ev.order.id)
             idx = len(M["oe"][ev.order.id])
-            tainted = rec is not None and ((idx == 0 and rec["by_job"]) or
-                                           (not ev.order.is_open and rec["cancel_by_job"] and rec["cancelled"]))
+            # - provided the event carries the job's own scheduled time: a job scheduled strictly between two bars acts at
+            # that time, and what it causes must not be stamped with (and then filled by) the bar that follows
+            tainted = rec is not None and ((idx == 0 and rec["by_job"] and rec["job_S"] == ev.when) or
+                                           (not ev.order.is_open and rec["cancel_by_job"] and rec["cancelled"]
+                                            and rec["cancel_job_S"] == ev.when))
+            if tainted:
+                JOB_S.set(ev.when)
             M["oe"][ev.order.id].append((ev.when, ev.order, d.now()))
             ctx.trace.append(("oe", ev.when.isoformat(), str(ev.order.amount_filled), str(ev.order.quote_amount_filled),
                               str(sorted(ev.order.fees.items())), ev.order.is_open))
@@ -1475,19 +1490,22 @@ def _execute(ctx):
         if scn["sub_first"]:
             for p in pairs:
                 e.subscribe_to_bar_events(p, on_bar)
+            # (the order in which sources get known to the dispatcher decides who goes first among same-time events)
+            e.subscribe_to_order_events(on_order)
         for src in sources:
             e.add_bar_source(src)
             d.subscribe(src, obs_bar)
         if not scn["sub_first"]:
             for p in pairs:
                 e.subscribe_to_bar_events(p, on_bar)
-        e.subscribe_to_order_events(on_order)
+            e.subscribe_to_order_events(on_order)
         sig_src = ts.TradingSignalSource(d)
         sig_src.subscribe_to_trading_signals(on_signal)
         d.subscribe_all(pre, front_run=True)
         d.subscribe_all(post)
         for j in scn["jobs"]:
             async def job(j=j):
+                JOB_S.set(tmin(min(j["at"], last_k)))
                 await guarded(run_ops(j["ops"], None, False))
             # not after the last bar: operations in the final flush of jobs happen after the last event was handled,
             # when no subscriber can be told about them any more
@@ -1647,6 +1665,9 @@ def _nontrivial(prop, ctx):
     if prop == "C11":
         return p["autorepay_with_2_loans"] > 0 or s["loans_repaid"] > 0
     return s["fills"] > 0
+
+
+JOB_S = contextvars.ContextVar("job_scheduled_time", default=None)
 
 
 def raised_inside_basana(x):
